@@ -172,6 +172,9 @@ func c04EnvFor(tmpl string) map[string]interface{} {
 			break
 		}
 	}
+	if c04ImMentions(tmpl) {
+		c04ImEnv(m)
+	}
 	return m
 }
 
